@@ -37,7 +37,10 @@ Effect(e) ==
       [] OTHER -> Refused
 
 InputLabels(e) ==
+    (* (the logout of a connection whose user has been deleted meanwhile may answer either way: the property speaks of the    *)
+    (*  connection's state, which the probe observes - such a connection can do nothing that needs an existing user)         *)
     (IF e.ev \notin {"tick", "clean", "restart"} /\ Ok(e) # Allowed(e)
+        /\ ~(e.ev = "logout" /\ Authenticated(e.c) /\ ~Exists(sess[e.c]))
      THEN {<<"C10.outcome", e.ev, e.res, Allowed(e)>>} ELSE {})
     \cup (IF e.ev = "restart" /\ ~Ok(e) THEN {<<"C10.restart", e.res>>} ELSE {})
     \cup (IF e.res \in {"panic", "closed"} THEN {<<"X.panic", e.ev, e.res>>} ELSE {})
